@@ -4,6 +4,7 @@ import (
 	"reflect"
 	"time"
 
+	rhp2 "go.sia.tech/core/rhp/v2"
 	rhp3 "go.sia.tech/core/rhp/v3"
 	"go.sia.tech/core/types"
 	"verif/sim"
@@ -33,12 +34,13 @@ func (f *filler) sliceLen() int {
 }
 
 var (
-	tTime       = reflect.TypeOf(time.Time{})
-	tPolicy     = reflect.TypeOf(types.SpendPolicy{})
-	tResolution = reflect.TypeOf((*types.V2FileContractResolutionType)(nil)).Elem()
-	tPayment    = reflect.TypeOf((*rhp3.PaymentMethod)(nil)).Elem()
-	tInstr      = reflect.TypeOf((*rhp3.Instruction)(nil)).Elem()
-	tError      = reflect.TypeOf((*error)(nil)).Elem()
+	tTime        = reflect.TypeOf(time.Time{})
+	tPolicy      = reflect.TypeOf(types.SpendPolicy{})
+	tResolution  = reflect.TypeOf((*types.V2FileContractResolutionType)(nil)).Elem()
+	tPayment     = reflect.TypeOf((*rhp3.PaymentMethod)(nil)).Elem()
+	tInstr       = reflect.TypeOf((*rhp3.Instruction)(nil)).Elem()
+	tError       = reflect.TypeOf((*error)(nil)).Elem()
+	tWriteAction = reflect.TypeOf(rhp2.RPCWriteAction{})
 )
 
 func (f *filler) policy(depth int) types.SpendPolicy {
@@ -189,6 +191,11 @@ func (f *filler) fill(v reflect.Value) {
 			if t.Field(i).IsExported() {
 				f.fill(v.Field(i))
 			}
+		}
+		if t == tWriteAction && f.t.Chance(3, 4) {
+			// the action kinds the protocol knows, each with whatever the other fields hold
+			kinds := []types.Specifier{rhp2.RPCWriteActionAppend, rhp2.RPCWriteActionTrim, rhp2.RPCWriteActionSwap, rhp2.RPCWriteActionUpdate}
+			v.FieldByName("Type").Set(reflect.ValueOf(kinds[f.t.Choose(len(kinds))]))
 		}
 	case reflect.Ptr:
 		if f.depth > 8 || f.t.Chance(1, 4) {
